@@ -44,7 +44,7 @@ PHASES = ["wrap", "spans", "indent", "blanks", "types", "spacing", "final"]
 # The complete, fixed set of keys this check can emit. Every observable failure maps to exactly one of
 # them, by mechanism (never by the random input): see `classify`.
 KEYS = (["C18/second-pass-failed",            # the formatter does not return on its own output
-         "C18/carriage-return",               # input contains `\r` (str::lines strips one per phase)
+         "C18/carriage-return",               # format(x) still contains `\r` (str::lines strips one per phase)
          "C18/second-pass-unattributed",      # outputs differ but no phase of the traced 2nd pass changes its input
          "C18/check-rejects-formatter-output",  # CLI `format --check` exits non-zero on format(x)
          "C18/check-with-testing-footer"]       # same, file has a `// args:` reftest footer (CLI strips it first)
@@ -53,14 +53,14 @@ KEYS = (["C18/second-pass-failed",            # the formatter does not return on
 
 def classify(ctx, src, f1_hex):
     """Deterministic, total classification of one non-idempotence (format(f1) != f1, f1 = format(src)):
-      1. `\r` anywhere in the input                      -> C18/carriage-return
+      1. f1 still contains a `\r`                         -> C18/carriage-return
       2. p = the first phase of the SECOND pass (fmt_trace on f1) whose output differs from its input;
          none                                             -> C18/second-pass-unattributed
       3. f1 has parse errors (or the front end fails)     -> C18/second-pass-<p>-parse-error
          otherwise                                        -> C18/second-pass-<p>
     The key depends only on the mechanism (which phase still finds work on formatted text) and on whether
     the text is a valid program, so a new seed cannot produce a new key for an old mechanism."""
-    if "\r" in src:
+    if "\r" in unhex(f1_hex):
         return "C18/carriage-return"
     tr, ast = ctx.garden_batch(["fmt_trace " + f1_hex, "ast " + f1_hex], shards=1)
     texts = F.trace_texts(tr or "")
